@@ -1,5 +1,10 @@
 package main
 
+import (
+	"verifh/ev"
+	"verifh/pool"
+)
+
 func c07(tier string) int {
 	arg := opsArg{Name: "c07", Init: []string{"now:100"}, RestartCheck: true}
 	ops := []string{
@@ -13,5 +18,21 @@ func c07(tier string) int {
 	if tier == "thorough" {
 		depth = 12
 	}
-	return runOpsCheck("C07", tier, arg, ops, depth, "sequential part: BFS from an unregistered server over registrations (valid by either candidate, signed by the candidate itself / the server key / the winner, key altered after signing, replays), restarts, and equipment authorizations, server authorizations and migration orders each signed by the temp key, G1 and G2; the model honours only the first temp-key-signed registration and afterwards only the winner's orders")
+	run := ev.NewRun("C07", tier, "model_checking")
+	p := pool.New(0)
+	st := bfsPool(run, p, "ops", arg, depth, 0, authFilter(arg.Init, ops))
+	// concurrent part: every interleaving (unbounded preemptions; the scenario is tiny)
+	execs, ok := runScenarios(run, []srvScenarioDef{c07Scenario()}, -1, p)
+	finishBfs(run, st, "sequential part: BFS to closure from an unregistered server over registrations (valid by either candidate, signed by the candidate itself / the server key / the winner, key altered after signing, replays), restarts, and equipment authorizations, server authorizations and migration orders each signed by the temp key, G1 and G2; the model honours only the first temp-key-signed registration and afterwards only the winner's orders. Concurrent part: every interleaving at lock points of {reg G1, reg G2, reg G3 signed by the wrong key, authorization signed by G1}; (status codes, final key, gcaPubKey.dat) must equal a sequential order's outcome")
+	run.Coverage["alphabet"] = ops
+	run.Coverage["schedules"] = execs
+	run.Coverage["transitions"] = st.Transitions + execs
+	run.Coverage["traces_validated_against_impl"] = st.Transitions + execs
+	run.Coverage["evaluations"] = st.Transitions + execs
+	run.Coverage["distinct_outcomes_concurrent"] = run.DistinctCount("outcome")
+	rc := exitCode(run, st)
+	if !ok && rc == 0 {
+		return 3
+	}
+	return rc
 }
